@@ -13,6 +13,7 @@ import MqttVerif.Model.Subs
 import MqttVerif.Model.Heap
 import MqttVerif.Model.Errors
 import MqttVerif.Model.Retry
+import MqttVerif.Model.BaseClient
 
 open Mqtt
 
@@ -318,6 +319,66 @@ def run (toks : List String) : Option String :=
 
 end RetryIO
 
+namespace BCIO
+open Mqtt.BC
+
+def parseEv (s : String) : Option Ev :=
+  match s.splitOn ":" with
+  | ["conn"] => some (.call .connect 0)
+  | ["pub", "1", id] => do pure (.call .pub1 (← id.toNat?))
+  | ["pub", "2", id] => do pure (.call .pub2 (← id.toNat?))
+  | ["sub", n, id] => do pure (.call (.sub (← n.toNat?)) (← id.toNat?))
+  | ["unsub", id] => do pure (.call .unsub (← id.toNat?))
+  | ["ping"] => some (.call .ping 0)
+  | ["disc"] => some (.call .disconnect 0)
+  | ["ack", sp, code] => do pure (.inb (.connack (← Oracle.b01 sp) (← code.toNat?)))
+  | ["pa", id] => do pure (.inb (.puback (← id.toNat?)))
+  | ["pr", id] => do pure (.inb (.pubrec (← id.toNat?)))
+  | ["pc", id] => do pure (.inb (.pubcomp (← id.toNat?)))
+  | ["sa", id, codes] => do pure (.inb (.suback (← id.toNat?) (← Oracle.parseDesc codes)))
+  | ["ua", id] => do pure (.inb (.unsuback (← id.toNat?)))
+  | ["pg"] => some (.inb .pingresp)
+  | ["bad"] => some (.inb .malformed)
+  | ["cancel", i] => do pure (.cancel (← i.toNat?))
+  | ["eof"] => some .peerClose
+  | ["lclose"] => some .localClose
+  | ["wf", on] => do pure (.writeFail (← Oracle.b01 on))
+  | _ => none
+
+def showRet : Ret → String
+  | .ok => "ok" | .okSub codes => "oksub:" ++ toHex codes
+  | .ctxErr r => if r then "ctx+r" else "ctx"
+  | .closed r => if r then "closed+r" else "closed"
+  | .writeErr r => if r then "werr+r" else "werr"
+  | .invalidSubAck => "invalidsuback" | .refused c => s!"refused:{c}" | .notConnected => "notconnected"
+
+def showW : W → String
+  | .connect => "C" | .publish q i => s!"P{q}i{i}" | .pubrel i => s!"R{i}" | .subscribe i n => s!"S{i}n{n}"
+  | .unsubscribe i => s!"U{i}" | .pingreq => "G" | .disconnect => "X"
+
+def showState : ConnState → String
+  | .new => "New" | .active => "Active" | .closed => "Closed" | .disconnected => "Disconnected"
+
+def showErrOpt : Option ErrClass → String
+  | none => "ok" | some e => "E:" ++ toString e
+
+def returned (s : St) : List (Nat × Ret) :=
+  (s.calls.zipIdx.filterMap (fun (c, i) => match c.phase with | .returned r => some (i, r) | _ => none))
+
+def showSt (s : St) : String :=
+  let rets := (returned s).map (fun (i, r) => s!"{i}:{showRet r}")
+  s!"rets={Oracle.RetryIO.joinOr rets ","} writes={Oracle.RetryIO.joinOr (s.writes.map showW) ","} cbs={Oracle.RetryIO.joinOr (s.callbacks.map (fun (st, e) => showState st ++ ":" ++ showErrOpt e)) ","} err={showErrOpt s.err} done={if s.doneClosed then 1 else 0} state={showState s.state}"
+
+def planOf (s : St) : String := s!"r{(returned s).length},w{s.writes.length},c{s.callbacks.length},d{if s.doneClosed then 1 else 0}"
+
+def run (toks : List String) : Option String := do
+  let evs ← toks.mapM parseEv
+  let sts := (evs.foldl (fun (acc : St × List St) e => let s := step acc.1 e; (s, acc.2 ++ [s])) ({}, [])).2
+  let final := sts.getLastD {}
+  pure (showSt final ++ " || " ++ String.intercalate ";" (sts.map planOf))
+
+end BCIO
+
 def handle (toks : List String) : Option String :=
   match toks with
   | ["rl", n] => do
@@ -413,6 +474,7 @@ def handle (toks : List String) : Option String :=
       let top := match x with | .leaf i => (if i = eofId then "eof" else "leaf") | _ => "node"
       pure s!"top={top} is={bits} retry={showBool (hasRetry x)} rto={showBool (stdAsRto x).isSome}"
   | "retry" :: rest => RetryIO.run rest
+  | "bc" :: rest => BCIO.run rest
   | ["rp", hex] => do
     let bs ← parseDesc hex
     let r := readPacket bs
